@@ -130,12 +130,25 @@ def main(argv=None):
 
     replay_paths = []
     os.makedirs(os.path.join(VERIF, "replays"), exist_ok=True)
+    from . import shrink
+    budget = {"quick": (40, 45.0), "thorough": (400, 600.0)}[ns.tier]
     for bucket, n, v in sorted(unknown, key=lambda t: t[2]["size"]):
         name = f"{prop}_{hashlib.sha1(bucket.encode()).hexdigest()[:10]}.json"
         path = os.path.join(VERIF, "replays", name)
+        rec = {"property": prop, "oracle": v["oracle"], "sig": v["sig"], "message": v["message"],
+               "case": v["case"], "count_in_run": n, "tier": ns.tier, "seed": seed}
+        # shrink: smallest case of the bucket, then the module's own reductions while the same oracle keeps failing on replay
+        if len(replay_paths) < 3 and os.environ.get("VERIF_NO_SHRINK") != "1":
+            try:
+                small, used, applied = shrink.minimise(mod, v["case"], rec, v["oracle"], *budget)
+                if applied:
+                    rec["unshrunk_case"] = v["case"]
+                    rec["case"] = small
+                rec["shrink"] = {"replays": used, "reductions": applied}
+            except BaseException as exc:  # noqa: BLE001 - shrinking is a convenience, never a verdict
+                rec["shrink"] = {"error": repr(exc)[:200]}
         with open(path, "w") as fh:
-            json.dump({"property": prop, "oracle": v["oracle"], "sig": v["sig"], "message": v["message"],
-                       "case": v["case"], "count_in_run": n, "tier": ns.tier, "seed": seed}, fh, indent=1, default=str)
+            json.dump(rec, fh, indent=1, default=str)
         replay_paths.append(path)
         print(f"VIOLATION property={prop} replay={path}")
         print(f"  oracle={v['oracle']} sig={json.dumps(v['sig'], default=str)} n={n}\n  {v['message'][:600]}")
